@@ -76,6 +76,7 @@ type Obligation struct {
 	Src    string
 	Where  string
 	Cover  bool // vacuity guard: the goal must be satisfiable
+	Cases  []Term // optional case split (conditions of the control-flow edges merged just before): tried when the whole goal is undecided
 	Model  []ModelVar
 	ClauseProps []string
 }
@@ -101,6 +102,7 @@ type Frame struct {
 	reach    map[*ssa.BasicBlock]Term
 	out      map[*ssa.BasicBlock]*State
 	edge     map[*ssa.BasicBlock][]Term // per block: condition of edge to Succs[i]
+	inConds  map[*ssa.BasicBlock][]Term // per block: conditions of its reachable incoming forward edges
 	entry    *State
 	params   []Val
 	binds    []Val
@@ -143,6 +145,9 @@ func (e *Enc) anchored(fr *Frame, kind string, ins ssa.Instruction, st *State, r
 		if aa.N != 0 && aa.N != fr.ord[ins] {
 			continue
 		}
+		if !clauseActive(aa.Clause) {
+			continue
+		}
 		ctx := e.frameCtx(fr, st, fr.curBlock, fr.curIdx, nil)
 		ctx.what = fmt.Sprintf("assert at %s %s#%d in %s", kind, aa.Callee, aa.N, contractName(fr.fn))
 		g := e.compileBool(ctx, aa.Clause.Expr)
@@ -180,6 +185,11 @@ type Enc struct {
 	allocLimit        Term
 	curCalleeMods     map[string]bool // deepMods of the callee whose contract is being applied
 	deepModsCache     map[*ssa.Function]map[string]bool
+	usesSum           bool
+	retConds          []Term // reach conditions of the top-level function's return sites
+	boundSorts        map[string]string
+	vmaps             map[string]string
+	vmapList          []vmapInfo
 }
 
 func newEnc(l *Loaded, cs *Contracts, fn *ssa.Function, con *Contract) *Enc {
@@ -340,8 +350,11 @@ func (e *Enc) wf(v Term, t types.Type, st *State, depth int) Term {
 	case *types.Pointer:
 		return "(and (>= (pref " + v + ") " + e.alloc(st) + ") (>= (pidx " + v + ") 0))"
 	case *types.Slice:
-		return fmt.Sprintf("(and (>= (sarr %s) %s) (>= (soff %s) 0) (>= (slen %s) 0) (<= (slen %s) (scap %s)) (<= (scap %s) 9223372036854775807) (<= (soff %s) 9223372036854775807) (=> (= (sarr %s) 0) (= (scap %s) 0)))",
-			v, e.alloc(st), v, v, v, v, v, v, v, v)
+		// cap * sizeof(elem) never exceeds the address space (makeslice and the
+		// array types themselves guarantee it), so lengths of slices with larger
+		// elements are correspondingly smaller
+		return fmt.Sprintf("(and (>= (sarr %s) %s) (>= (soff %s) 0) (>= (slen %s) 0) (<= (slen %s) (scap %s)) (<= (scap %s) %d) (<= (soff %s) 9223372036854775807) (=> (= (sarr %s) 0) (= (scap %s) 0)))",
+			v, e.alloc(st), v, v, v, v, v, maxCapOf(u.Elem()), v, v, v)
 	case *types.Chan:
 		// channels of different element types are different channels
 		e.B.declTop("chtype", "(declare-fun chtype (Int) Int)")
@@ -367,6 +380,21 @@ func (e *Enc) wf(v Term, t types.Type, st *State, depth int) Term {
 		return and(parts...)
 	}
 	return "true"
+}
+
+var gcSizes = types.SizesFor("gc", "amd64")
+
+func maxCapOf(elem types.Type) (n int64) {
+	n = 9223372036854775807
+	defer func() {
+		if recover() != nil {
+			n = 9223372036854775807
+		}
+	}()
+	if sz := gcSizes.Sizeof(elem); sz > 1 {
+		n = 9223372036854775807 / sz
+	}
+	return n
 }
 
 func (e *Enc) assumeWF(v Term, t types.Type, st *State) {
@@ -606,6 +634,7 @@ func (e *Enc) encodeBody(fr *Frame, st *State) ([]Val, *State, Term) {
 	fr.reach = map[*ssa.BasicBlock]Term{}
 	fr.out = map[*ssa.BasicBlock]*State{}
 	fr.edge = map[*ssa.BasicBlock][]Term{}
+	fr.inConds = map[*ssa.BasicBlock][]Term{}
 	fr.callIdx = map[string]int{}
 	fr.iterInfo = map[ssa.Value]*iterState{}
 	fr.entry = st.clone()
@@ -667,6 +696,7 @@ func (e *Enc) encodeBody(fr *Frame, st *State) ([]Val, *State, Term) {
 				continue // unreachable
 			}
 			reach = e.B.define(fmt.Sprintf("reach.%d.b%d", fr.id, b.Index), "Bool", or(conds...))
+			fr.inConds[b] = conds
 			in = e.mergeStates(conds, states)
 		}
 		fr.reach[b] = reach
@@ -729,6 +759,9 @@ func (e *Enc) encodeBody(fr *Frame, st *State) ([]Val, *State, Term) {
 	for _, r := range rets {
 		conds = append(conds, r.cond)
 		states = append(states, r.st)
+	}
+	if fr.id == 0 {
+		e.retConds = conds
 	}
 	outSt := e.mergeStates(conds, states)
 	n := fn.Signature.Results().Len()
